@@ -734,9 +734,15 @@ class CSSMatch(_DocumentNav):
         self,
         el: bs4.Tag,
         attr: str,
-        prefix: str | None
+        prefix: str | None,
+        pattern: re.Pattern[str] | None = None
     ) -> str | Sequence[str] | None:
-        """Match attribute name and return value if it exists."""
+        """
+        Match attribute name and return value if it exists.
+
+        `*|attr` can name several attributes of an element (same local name, different namespaces):
+        if a `pattern` is given, prefer the value that matches it.
+        """
 
         value = None
         if self.supports_namespaces():
@@ -778,6 +784,10 @@ class CSSMatch(_DocumentNav):
                     continue
 
                 value = v
+                if prefix == '*' and pattern is not None and v is not None:
+                    if pattern.match(v if isinstance(v, str) else ' '.join(v)) is None:
+                        # Another attribute with this local name may have the value
+                        continue
                 break
         else:
             for k, v in self.iter_attributes(el):
@@ -814,8 +824,8 @@ class CSSMatch(_DocumentNav):
         match = True
         if attributes:
             for a in attributes:
-                temp = self.match_attribute_name(el, a.attribute, a.prefix)
                 pattern = a.xml_type_pattern if self.is_xml and a.xml_type_pattern else a.pattern
+                temp = self.match_attribute_name(el, a.attribute, a.prefix, pattern)
                 if temp is None:
                     match = False
                     break
